@@ -22,6 +22,7 @@ package main
 import (
 	"fmt"
 	"runtime"
+	"runtime/debug"
 	"sort"
 	"strings"
 	"sync"
@@ -250,7 +251,10 @@ func leaksFamily(name string, maxFaults int) vlib.Family {
 		Describe: func(i int64) interface{} { return scs[i].name },
 		Run: func(i int64, r *vlib.Rec) {
 			leakInit()
-			collectLeaks() // whatever earlier families of this process left behind
+			// no collection while an execution is running: a finalizer must
+			// not start its reporting goroutine under the scheduler
+			defer debug.SetGCPercent(debug.SetGCPercent(-1))
+			collectLeaks() // whatever earlier cases of this process left behind
 			sc := scs[i]
 			var x *lexec
 			body := func() { x = &lexec{}; runLeak(sc, x) }
